@@ -56,6 +56,8 @@ func loadSchema(abs any) (*openapi3.Schema, *openapi3.T, error) {
 		"paths":   map[string]any{},
 		"components": map[string]any{"schemas": map[string]any{
 			"S": absSchemaToOpenAPI(abs),
+			// the schema a discriminator mapping of the universe designates ("discref": key "k")
+			"D": map[string]any{"type": "object", "properties": map[string]any{"y": map[string]any{"type": "integer"}}},
 		}},
 	}
 	data, err := json.Marshal(doc)
